@@ -113,6 +113,20 @@ func (v *VCluster) Monitor(l UpdateListener) error {
 	return v.reg.Monitor(append([]string(nil), v.eps...), v.wkey, false, l)
 }
 
+// Unmonitor is the real Registry.Unmonitor (what Subscriber.Close calls) for one listener of the watcher.
+func (v *VCluster) Unmonitor(l UpdateListener) {
+	v.reg.Unmonitor(append([]string(nil), v.eps...), v.wkey, false, l)
+}
+
+// HasWatcher reports whether the cluster still has a watcher for the key (Unmonitor deletes it
+// when the last listener leaves).
+func (v *VCluster) HasWatcher() bool {
+	v.c.lock.RLock()
+	defer v.c.lock.RUnlock()
+	_, ok := v.c.watchers[v.key]
+	return ok
+}
+
 // Values returns a copy of the registry's copy of the etcd state (watchValue.values).
 func (v *VCluster) Values() map[string]string {
 	v.c.lock.RLock()
@@ -186,6 +200,46 @@ func VGlobalValues(endpoints []string, key string) string {
 	c.lock.RLock()
 	defer c.lock.RUnlock()
 	w, ok := c.watchers[watchKey{key: key}]
+	if !ok {
+		return "-"
+	}
+	ks := make([]string, 0, len(w.values))
+	for k := range w.values {
+		ks = append(ks, k)
+	}
+	sort.Strings(ks)
+	s := ""
+	for _, k := range ks {
+		s += k + "=" + w.values[k] + ","
+	}
+	return s
+}
+
+// VGlobalListeners: number of listeners of one watcher of the global registry's cluster, -1 if
+// there is no such watcher (coverage signature of the e2e part only, never an oracle).
+func VGlobalListeners(endpoints []string, key string, exact bool) int {
+	c, ok := registry.getCluster(append([]string(nil), endpoints...))
+	if !ok {
+		return -1
+	}
+	c.lock.RLock()
+	defer c.lock.RUnlock()
+	w, ok := c.watchers[watchKey{key: key, exactMatch: exact}]
+	if !ok {
+		return -1
+	}
+	return len(w.listeners)
+}
+
+// VGlobalValuesOf is VGlobalValues for an exact-match watcher as well.
+func VGlobalValuesOf(endpoints []string, key string, exact bool) string {
+	c, ok := registry.getCluster(append([]string(nil), endpoints...))
+	if !ok {
+		return "-"
+	}
+	c.lock.RLock()
+	defer c.lock.RUnlock()
+	w, ok := c.watchers[watchKey{key: key, exactMatch: exact}]
 	if !ok {
 		return "-"
 	}
